@@ -40,7 +40,8 @@ def gen(rng):
                                     'edm_gap': rng.choice([0, 1, 5, 30]), 'enm': True,
                                     'gap': rng.choice([0, 0, 1, 2, 4, 5, 6, 10, 40])})
     offset = rng.choice([0, 0, 0, 1, 2, 3600, 0.5, 2.5, 7.25])      # fractions that are exact in binary
-    start_frame = int(offset * 30) + rng.choice([0, 1, 15, 28, 29, 30, 59, 1799, 1800, 107999, 108000, 2589410])
+    start_frame = int(offset * 30) + rng.choice([0, 1, 15, 28, 29, 30, 59, 1799, 1800, 107999, 108000, 2589410, 2592000 - 20, 2592000 + 5,
+                                                   108000 * 30 + 7, 108000 * 98 + 1700])
     if offset and rng.random() < 0.3:
         # the stream begins before the offset: the first instants are floored at zero
         start_frame = rng.choice([0, 1, 15, 29, 30, 45, max(0, int(offset * 30) - 20), max(0, int(offset * 30) - 1)])
